@@ -19,7 +19,9 @@ LEVEL_NOTE = ("Proved for the tokenizer primitives; the lift to 'every object of
               "end of input (it names no token) and is outside the statement.")
 TECHNIQUE = "Lean 4 invariant proofs per iterator primitive + differential correspondence + recorded-position oracle"
 RULE = ("C02 layouts with the line of every emitted token recorded (blank lines, comments, multi-line strings, continuations, "
-        "semicolons, off regions), plus documents with one injected fault whose token line is known, plus unused-definition "
+        "semicolons, off regions; in a share of the documents the whitespace between tokens, on otherwise empty lines, in "
+        "comments, in quoted values and in off regions is any str.isspace() character other than LF - form feed, VT, FS/GS/RS/US, "
+        "NEL, NBSP, LS/PS, Unicode spaces - and lines end in CR LF), plus documents with one injected fault whose token line is known, plus unused-definition "
         "reports of the same documents; non-trivial = document has more than one line")
 ASSUMPTIONS = ["the renderer's own line bookkeeping (1 + newlines emitted before the token)"]
 
@@ -47,6 +49,23 @@ FAULTS = [
     ("__x__ = 3\n", "reserved", 0),
     ("sc.include { }\n", "reserved", 0),
 ]
+
+
+# "whatever precedes it": besides blank / TAB / LF the tokenizer takes every str.isspace() character for whitespace - form feed
+# (a page break), vertical tab, FS/GS/RS/US, NEL, NBSP, LS/PS, the Unicode spaces - and CR LF line ends; none of them starts a new
+# line except LF.  A share of the documents is laid out with such characters between tokens, on lines of their own, in comments,
+# in quoted values and inside switched-off regions (layout.Renderer / TreeGen `exotic=`).
+EXOTIC_RATES = [0.0, 0.0, 0.0, 0.1, 0.3]
+
+
+def has_exotic_value(tree):
+    for n in tree:
+        if n["k"] == "d":
+            if any(c in layout.EXOTIC_WS for w in n["words"] for c in w["v"]):
+                return True
+        elif has_exotic_value(n["objs"]):
+            return True
+    return False
 
 
 def active_defs(tree, path="", out=None):
@@ -90,6 +109,11 @@ s {
 """
 
 
+# lines that may precede the faulty value: each holds exactly one line feed
+PRE_LINES = ["\n", "# note\n", "x_unrelated = 1\n", "\x0c\n", "# page\x0cbreak \x85 \u2028 in a comment\n", "x_unrelated = 1\r\n",
+             "x_unrelated\x0b=\x1c'\x1d \x1e'\n"]
+
+
 def typed_value_faults(ctx, rng, rounds):
     """errors raised while MERGING a value (choice alternatives) cite the line of the offending word, also when the value
     runs over several lines (backslash continuation, quoted words on following lines) and follows blank lines/comments"""
@@ -102,7 +126,7 @@ def typed_value_faults(ctx, rng, rounds):
         bad = rng.choice(["zzz", "q", "A_"])
         words[bad_at] = "*" + bad
         quoted = rng.random() < 0.3
-        pre = "".join(rng.choice(["\n", "# note\n", "x_unrelated = 1\n"]) for _ in range(rng.randint(0, 3)))
+        pre = "".join(rng.choice(PRE_LINES) for _ in range(rng.randint(0, 3)))
         line = 1 + pre.count("\n")
         text = pre + name + " ="
         bad_line = None
@@ -120,7 +144,12 @@ def typed_value_faults(ctx, rng, rounds):
         ctx.case(("typed_fault", text), nontrivial=text.count("\n") > 1)
         ctx.count("typed_value_faults")
         try:
-            master.fetch(source=freephil.parse(input_string=text))
+            source = freephil.parse(input_string=text)
+        except BaseException as e:
+            ctx.fail({"master": TYPED_MASTER, "text": text}, "well-formed document refused: %s: %s" % (type(e).__name__, str(e)[:80]))
+            continue
+        try:
+            master.fetch(source=source)
             ctx.fail({"master": TYPED_MASTER, "text": text}, "an unknown starred alternative was accepted")
             continue
         except freephil.Sorry as e:
@@ -179,18 +208,22 @@ def run(ctx):
         if ctx.time_left() < 25:
             ctx.notes.append("stopped early on time budget")
             break
-        tree, text, feats = _lay.gen_case(rng)
+        tree, text, feats = _lay.gen_case(rng, exotic=rng.choice(EXOTIC_RATES))
         nontriv = text.count("\n") > 1
         ctx.case(text, nontrivial=nontriv)
         for f in feats:
             ctx.count(f)
+        if has_exotic_value(tree):
+            ctx.count("exotic_ws_in_quoted_value")
         f = check_lines(tree, text) or label_clause(text)
         cases.append({"text": text, "fail": f})
         reqs.append(["parse", enc(text)])
         impls.append(call_j(lambda: freephil.parse(input_string=text), obj_j))
         # one injected fault after a valid prefix
         frag, site, off = rng.choice(FAULTS)
-        prefix_tree, prefix_text, _ = _lay.gen_case(rng, off_regions=rng.random() < 0.5)
+        prefix_tree, prefix_text, pfeats = _lay.gen_case(rng, off_regions=rng.random() < 0.5, exotic=rng.choice(EXOTIC_RATES))
+        if any(f.startswith("exotic_ws") for f in pfeats):
+            ctx.count("fault_after_exotic_ws")
         if prefix_text and not prefix_text.endswith("\n"):
             prefix_text += "\n"
         if "#phil __END__" in prefix_text or prefix_text.rstrip().endswith("__OFF__\nq = 2") or "#phil __OFF__\nq" in prefix_text:
